@@ -232,3 +232,66 @@ Theorem C08_search_group0_single :
 Proof. exact Verif.Proofs.SpecBoundsProofs.C08_spec_group0_single. Qed.
 Print Assumptions C08_search_group0_single.
 Check Verif.Proofs.SpecBoundsProofs.C08_spec_group0_single.
+
+(* ---- composition: the same two facts at the INTERPRETER level (Proofs/ComposeExec.v).
+   C01_compile_correct2_exec_partial (whenever VM.exec_at returns, its state carries Spec.attempt's answer)
+   o the two theorems above o C01_caps_rel2_reads (what a capture array with balanceMatch's markers denotes).
+   Hypotheses: exactly those of C01_compile_correct2_exec_partial (cfg0 program of a supported2 tree -- every
+   constructor, balancing groups included --, group numbers are slots, text length / reference fuel <= MaxInt32).
+   [loops_min_ok root] is NOT a hypothesis here (it follows from supported2) and 0 < capsize p follows from
+   groups_ok2.  Residual: [Spec.attempt e fuel root t0 = Ok r], i.e. the reference attempt terminates within the
+   engine's counter range; nothing is claimed when exec_at does not return (C01_exec_total covers that).
+
+   Whenever one execute() call returns with group 0 set:
+   (1) Runtextpos is inside the text;
+   (2) every slot g of the match object holds an array  flat (rev ps)  that DENOTES (Den) a stack stk of live
+       captures, every capture of stk lies inside the text, and match.go's readers isMatched / matchIndex /
+       matchLength answer from that stack (non-empty? / newest live capture). *)
+From Verif Require Import Model.Tree Model.Spec Model.VM Model.Writer Proofs.SpecBoundsProofs Proofs.CompileBase Proofs.CompileDefs Proofs.CompileBalDen
+  Proofs.CompileBalDefs Proofs.ComposeExec.
+
+Theorem C08_exec_captures_in_bounds :
+  forall (e : env) (p : program), 0 <= trackcount p -> tlen e <= INF ->
+  forall L fuel vfuel o body t0 r s',
+  let root := NCapture o 0 (-1) body in
+  codes p = fst (compile cfg0 root) -> strings p = snd (compile cfg0 root) ->
+  supported2 root = true -> groups_ok2 (capsize p) root -> 0 <= t0 <= tlen e ->
+  Z.of_nat fuel <= INF ->
+  Spec.attempt e fuel root t0 = Ok r ->
+  exec_at e p L vfuel t0 = Ok s' -> matched0 s' = true ->
+  0 <= tp s' <= tlen e /\
+  forall g, 0 <= g < capsize p ->
+    exists ps stk,
+      nth (Z.to_nat g) (mcaps s') [] = flat (rev ps) /\ Den ps stk /\
+      (forall i len, In (i, len) stk -> 0 <= i /\ 0 <= len /\ i + len <= tlen e) /\
+      vm_is_matched g (mcaps s') = Some (match stk with [] => false | _ => true end) /\
+      (forall i len rest, stk = (i, len) :: rest ->
+         vm_match_index g (mcaps s') = Some i /\ vm_match_length g (mcaps s') = Some len).
+Proof. exact cx_exec_captures_in_bounds. Qed.
+Print Assumptions C08_exec_captures_in_bounds.
+
+(* (3) group 0 is the match span: with the extra hypothesis [no_group0 body] (no node of the body writes or
+   balances group 0), slot 0 denotes exactly the one capture [min t0 textpos, |textpos - t0|], so
+   matchIndex(0) / matchLength(0) are the start and length of the match in either direction. *)
+Theorem C08_exec_group0_is_match_span :
+  forall (e : env) (p : program), 0 <= trackcount p -> tlen e <= INF ->
+  forall L fuel vfuel o body t0 r s',
+  let root := NCapture o 0 (-1) body in
+  codes p = fst (compile cfg0 root) -> strings p = snd (compile cfg0 root) ->
+  supported2 root = true -> groups_ok2 (capsize p) root -> 0 <= t0 <= tlen e ->
+  Z.of_nat fuel <= INF ->
+  Spec.attempt e fuel root t0 = Ok r ->
+  no_group0 body ->
+  exec_at e p L vfuel t0 = Ok s' -> matched0 s' = true ->
+  0 < capsize p /\
+  (exists ps, nth 0 (mcaps s') [] = flat (rev ps) /\
+              Den ps [(Z.min t0 (tp s'), Z.abs (tp s' - t0))]) /\
+  vm_is_matched 0 (mcaps s') = Some true /\
+  vm_match_index 0 (mcaps s') = Some (Z.min t0 (tp s')) /\
+  vm_match_length 0 (mcaps s') = Some (Z.abs (tp s' - t0)).
+Proof. exact cx_exec_group0_is_match_span. Qed.
+Print Assumptions C08_exec_group0_is_match_span.
+
+(* non-vacuity: a^n b^n with (?<2-1>b) and (?<-2>) on "aabb" meets every hypothesis; the interpreter returns
+   with group 0 set and marker pairs in slots 1 and 2 (Proofs/ComposeExec.v, by vm_compute) *)
+Example C08_exec_witness := cx_demo.
